@@ -123,6 +123,89 @@ impl TypeSpace {
     }
 }
 
+// ===================================================================================
+// ASSUMED contracts of functions that are NOT verified (stand-in declarations with
+// external_body; listed in the evidence as trusted). They state what the ingestion
+// driver's verified callers rely on -- nothing here is proved.
+// ===================================================================================
+
+/// "this entry has been through TypeEntry::finalize" (uninterpreted).
+pub uninterp spec fn finalized(e: TypeEntry) -> bool;
+
+/// "break_cycles has cut every containment cycle through an identifier in [lo, hi), starting
+/// from the state whose next_id was `next_at_call`" -- an uninterpreted token that only
+/// break_cycles' assumed contract establishes, for exactly the range it was given. (It is not
+/// a predicate of the entry map because the finalisation loop that follows replaces entries
+/// by their finalized clones, which do not change any child.)
+pub uninterp spec fn cycles_cut(next_at_call: u64, lo: u64, hi: u64) -> bool;
+
+pub assume_specification[ <TypeEntry as Clone>::clone ](x: &TypeEntry) -> (r: TypeEntry)
+    ensures
+        r == *x,
+;
+
+impl TypeEntry {
+    /// ASSUMED: finalize leaves the allocator alone, keeps the entry's name, and marks it.
+    #[verifier::external_body]
+    pub fn finalize(&mut self, type_space: &mut TypeSpace) -> (r: Result<()>)
+        ensures
+            final(type_space).same_state(old(type_space)),
+            final(self).is_named() == old(self).is_named(),
+            final(self).is_named() ==> final(self).spec_name() == old(self).spec_name(),
+            details_named(final(self).details) == details_named(old(self).details),
+            (final(self).details is Reference) == (old(self).details is Reference),
+            r is Ok ==> finalized(*final(self)),
+    {
+        unimplemented!()
+    }
+}
+
+impl TypeSpace {
+    /// ASSUMED: converting a schema allocates zero or more fresh identifiers, gives every one
+    /// of them an entry, never touches an entry that existed before, and returns an
+    /// identifier that has been handed out.
+    #[verifier::external_body]
+    pub fn id_for_schema<'a>(&mut self, type_name: Name, schema: &'a Schema) -> (r: Result<(TypeId, &'a Option<Box<Metadata>>)>)
+        requires
+            old(self).wf(),
+            keys_lawful(),
+        ensures
+            r is Ok ==> {
+                &&& final(self).wf()
+                &&& old(self).next_id <= final(self).next_id
+                &&& r->Ok_0.0.0 < final(self).next_id
+                &&& forall|k: TypeId| #[trigger] old(self).ids().contains_key(k) ==>
+                        final(self).ids().contains_key(k) && final(self).ids()[k] == old(self).ids()[k]
+                &&& forall|i: u64| old(self).next_id <= i < final(self).next_id ==> #[trigger] final(self).ids().contains_key(TypeId(i))
+                &&& old(self).names_exact() ==> final(self).names_exact()
+            },
+    {
+        unimplemented!()
+    }
+
+    /// ASSUMED: cycle breaking cuts the cycles through the range it is given, may allocate
+    /// Box entries, and leaves identifiers below the range alone.
+    #[verifier::external_body]
+    pub fn break_cycles(&mut self, range: std::ops::Range<u64>)
+        requires
+            old(self).wf(),
+            keys_lawful(),
+            range.end <= old(self).next_id,
+        ensures
+            final(self).wf(),
+            old(self).next_id <= final(self).next_id,
+            cycles_cut(old(self).next_id, range.start, range.end),
+            forall|k: TypeId| #![trigger old(self).ids().contains_key(k)] #![trigger final(self).ids().contains_key(k)]
+                old(self).ids().contains_key(k) ==> final(self).ids().contains_key(k),
+            forall|k: TypeId| #[trigger] old(self).ids().contains_key(k) && k.0 < range.start ==>
+                final(self).ids()[k] == old(self).ids()[k],
+            forall|i: u64| old(self).next_id <= i < final(self).next_id ==> #[trigger] final(self).ids().contains_key(TypeId(i)),
+            old(self).names_exact() ==> final(self).names_exact(),
+    {
+        unimplemented!()
+    }
+}
+
 /// Vacuity canary: must FAIL. If the preconditions used by the contracts were contradictory
 /// (or Verus generated no obligations), this would verify and the check reports UNDECIDED.
 proof fn canary_preconditions_are_consistent(ts: &TypeSpace, ty: TypeEntry)
